@@ -5,8 +5,10 @@
             S <name> <stropped>          (table of Language.filter_id(name, "path"); identity elsewhere)
             T <type>
             GO
-   perm modes: 0 identity, 1 reverse, 2 sorted, 3 reverse sorted
-   output:  ROOT, NODE, NTY, ALL, DT, NSP, FIND, INC lines (see below), terminated by END *)
+            P <key>                      (optional priority list for perm mode 4, most urgent first)
+   perm modes: 0 identity, 1 reverse, 2 sorted, 3 reverse sorted, 4 keys of the P list first (in P order), the rest after
+               in their original order (used to replay the set iteration order observed on the implementation)
+   output:  ROOT, FOLD (the Coq trigger predicate ns_fold), NODE, NTY, ALL, DT, NSP, FIND, INC lines (see below), terminated by END *)
 open Model
 
 let rec pos_of_int n = if n = 1 then XH else if n land 1 = 0 then XO (pos_of_int (n lsr 1)) else XI (pos_of_int (n lsr 1))
@@ -24,18 +26,20 @@ let parse_ty s =
   | _ -> failwith ("bad type " ^ s)
 let show_ty t = String.concat "|" [show_key t.t_ns; show_str t.t_short; string_of_int (int_of_n t.t_major); string_of_int (int_of_n t.t_minor)]
 
-let order mode l =
+let order prio mode l =
   match mode with
   | 0 -> l
   | 1 -> List.rev l
   | 2 -> List.sort compare l
-  | _ -> List.rev (List.sort compare l)
+  | 3 -> List.rev (List.sort compare l)
+  | _ -> List.filter (fun k -> List.mem k l) prio @ List.filter (fun k -> not (List.mem k prio)) l
 
-let run es ext stem outdir pm cm table types =
+let run es ext stem outdir pm cm table prio types =
   let strop x = match List.assoc_opt x table with Some y -> y | None -> x in
-  let perm = order pm and cperm = order cm in
+  let perm = order prio pm and cperm = order prio cm in
   let (s, root) = build strop es ext outdir perm types in
   print_string ("ROOT " ^ show_key root ^ "\n");
+  print_string ("FOLD " ^ (if ns_fold strop types then "1" else "0") ^ "\n");
   List.iter (fun (k, n) ->
       Printf.printf "NODE %s %s %s %s\n" (show_key k)
         (match n.n_parent with Some p -> show_key p | None -> "-")
@@ -58,20 +62,21 @@ let run es ext stem outdir pm cm table types =
   print_string "END\n"
 
 let () =
-  let cfg = ref None and table = ref [] and types = ref [] in
+  let cfg = ref None and table = ref [] and types = ref [] and prio = ref [] in
   try
     while true do
       let line = String.trim (input_line stdin) in
       match String.split_on_char ' ' line with
       | ["CASE"; es; ext; stem; outdir; pm; cm] ->
         cfg := Some (es = "1", parse_str ext, parse_str stem, parse_key outdir, int_of_string pm, int_of_string cm);
-        table := []; types := []
+        table := []; types := []; prio := []
       | ["S"; a; b] -> table := (parse_str a, parse_str b) :: !table
       | ["T"; t] -> types := parse_ty t :: !types
+      | ["P"; k] -> prio := parse_key k :: !prio
       | ["GO"] ->
         (match !cfg with
          | Some (es, ext, stem, outdir, pm, cm) ->
-           (try run es ext stem outdir pm cm !table (List.rev !types)
+           (try run es ext stem outdir pm cm !table (List.rev !prio) (List.rev !types)
             with e -> print_string ("ERR " ^ Printexc.to_string e ^ "\nEND\n"))
          | None -> print_string "ERR no case\nEND\n")
       | [""] -> ()
